@@ -14,7 +14,7 @@ Definition ex_P : gparams :=
 (* ---- the full-strength charging clause and its refutation ------------------- *)
 Definition charge_exact : Prop :=
   forall P ver run st gp m g f st' gp',
-    run_le run -> stake_sane st m ->
+    run_le run -> stake_sane P st m ->
     (is_staking P (m_to m) = true -> g_v4 P <= ver) ->
     apply_message P ver run st gp m = (Applied g f, st', gp') ->
     bal st' (m_from m) + moved_of P m f + g * m_price m = bal st (m_from m).
@@ -34,7 +34,7 @@ Proof.
   specialize (Hc ex_P 5 (run_code ex_P) w_st 8000000 w_msg 26006 false
                  [(1, mkAcct 1 999986997000 0 0); (2, mkAcct 1 0 4 0)] 7986997
                  (run_code_le ex_P)).
-  assert (SS : stake_sane w_st w_msg) by (intros d Hd; discriminate).
+  assert (SS : stake_sane ex_P w_st w_msg) by (intros Hs; vm_compute in Hs; discriminate).
   specialize (Hc SS ltac:(intros Hs; vm_compute in Hs; discriminate) w_run).
   vm_compute in Hc. discriminate.
 Qed.
